@@ -16,7 +16,9 @@ ASSUMPTIONS = ['SHA-256 collision resistance; serde_json / chrono round trips (v
 
 E = 'mithril_common::entities::'
 DIGEST = ['*digest::*::update', '*Digest*::update', '*::Update>::update', '*::chain_update', 'sha2::*::update',
-          '<* as digest::digest::Digest>::update', 'digest::digest::Digest::update']
+          '<* as digest::digest::Digest>::update', 'digest::digest::Digest::update',
+          # one-shot hashing of a pre-image built first (`Sha256::digest(bytes)`)
+          'digest::digest::Digest::digest', '<* as digest::digest::Digest>::digest', '*Digest>::digest', '*::new_with_prefix', '*::chain_update']
 
 
 def has(og, pat):
